@@ -6,7 +6,7 @@ export CARGO_NET_OFFLINE=true
 LOG=$OUT/confirm$K.log; : > $LOG
 git checkout -q -- . ; git clean -qfd tests src
 cp $OUT/demo$K.rs tests/zz_demo.rs
-FEAT="--features alloc"
+FEAT="${CONFIRM_FEAT:---features alloc} ${CONFIRM_FLAGS:-}"
 r_clean=fail; r_mut=pass; r_suite=fail
 if cargo test --offline -j 4 $FEAT --test zz_demo >>$LOG 2>&1; then r_clean=pass; fi
 if git apply $OUT/patch$K.diff >>$LOG 2>&1; then
